@@ -69,6 +69,13 @@ Proof. exact sin_odd_flocq. Qed.
 Check sin_odd : forall x, canonical x -> s_sin flocq_prims (s_neg x) = s_neg (s_sin flocq_prims x).
 Print Assumptions sin_odd.
 
+(* F32Scalar::new as the code literally computes its last branch (`num + 0.0` through the IEEE adder,
+   Flocq binary32) is the field-level function used in the theorems above. *)
+Theorem new_matches_adder : forall b, b < TWO32 -> new_via_adder b = new b.
+Proof. exact new_via_adder_eq. Qed.
+Check new_matches_adder : forall b, b < TWO32 -> new_via_adder b = new b.
+Print Assumptions new_matches_adder.
+
 (* The second copy of the canonicalisation policy (echo-wasm-abi codec) is the same function. *)
 Theorem codec_canonicalize_agrees : forall b, codec_canonicalize_f32 b = new b.
 Proof. exact codec_canonicalize_is_new. Qed.
@@ -148,6 +155,58 @@ Check prng_never_zero_state :
   (forall s0 s1, s0 < M64 -> s1 < M64 -> (s0, s1) <> (0, 0) -> snd (prng_next_u64 (s0, s1)) <> (0, 0)).
 Print Assumptions prng_never_zero_state.
 
+(* RANGE (full): sine and cosine of EVERY 32-bit pattern stay within [-1, 1] under IEEE-754 binary32
+   round-to-nearest-even (Flocq): the magnitude bits of the F32Scalar result are at most the bits of 1.0
+   (for non-NaN patterns bit order of the magnitude is numeric order; the result is never NaN).
+   Ingredients, each proved: (1) sin_cos_is_signed_interp - for ANY primitives every component of
+   sin_cos_f32 on a finite angle is 0, a value of sin_qtr_interp, or its sign-flip; (2)
+   sin_interp_segment_range - by monotone rounding the interpolation y0 + frac * (y1 - y0) between any two
+   adjacent knots of the checked-in table stays in [0, 1] for every fraction in [0, 1] (table side: finite
+   check of all 1024 segments of the regenerated table, lifted by forallb_forall); (3) for 0 <= a <= pi/2 the
+   scaled argument t satisfies `t as usize` < 1024 and 0 <= t - trunc t <= 1 whenever t < 1024; (4) float
+   order and bit order agree on [0, 1]. *)
+Theorem sin_cos_range : forall x, x < TWO32 ->
+  fabs (s_sin flocq_prims x) <= ONE /\ fabs (s_cos flocq_prims x) <= ONE.
+Proof. exact sin_cos_range_l. Qed.
+Check sin_cos_range : forall x, x < TWO32 ->
+  fabs (s_sin flocq_prims x) <= ONE /\ fabs (s_cos flocq_prims x) <= ONE.
+Print Assumptions sin_cos_range.
+
+Theorem sin_cos_is_signed_interp : forall P, prims_wf P -> forall x, is_finite x = true ->
+  signed_interp P (fst (sin_cos P x)) /\ signed_interp P (snd (sin_cos P x)).
+Proof. exact sin_cos_signed_interp_l. Qed.
+Check sin_cos_is_signed_interp : forall P, prims_wf P -> forall x, is_finite x = true ->
+  signed_interp P (fst (sin_cos P x)) /\ signed_interp P (snd (sin_cos P x)).
+Print Assumptions sin_cos_is_signed_interp.
+
+Theorem sin_interp_segment_range : forall i frac, i < 1024 -> in01 frac = true ->
+  in01 (f_add (lut i) (f_mul frac (f_sub (lut (i + 1)) (lut i)))) = true.
+Proof. exact interp_step_in01. Qed.
+Check sin_interp_segment_range : forall i frac, i < 1024 -> in01 frac = true ->
+  in01 (f_add (lut i) (f_mul frac (f_sub (lut (i + 1)) (lut i)))) = true.
+Print Assumptions sin_interp_segment_range.
+
+(* REFUTED (known finding oracle:quat-from_axis_angle-nan-from-finite-input).  Full statement wanted:
+     forall axis angle, all components finite ->
+       no component of Quat::from_axis_angle(axis, angle) is NaN          (totality on finite input)
+   It is false of the faithful model and of the code: for axis = (1e20, 0, 0), angle = 1.0 the squared
+   length overflows to +inf, passes the `len_sq <= EPSILON^2` guard, det_sqrt_f32 clamps +inf to 0.0
+   and 1.0 / 0.0 poisons the result.  The harness replays exactly this witness on the real crate
+   (release: NaN components; debug: panic in Quat::new).  What remains unproved: the guarded version
+   "len_sq finite -> no NaN component". *)
+Theorem from_axis_angle_total_refuted :
+  exists ax ay az angle,
+    all_finite [ax; ay; az; angle] = true /\
+    has_nan (q4_list (q_from_axis_angle flocq_prims (ax, ay, az) angle)) = true /\
+    is_inf (v_dot flocq_prims (ax, ay, az) (ax, ay, az)) = true.
+Proof. exact from_axis_angle_nan_witness. Qed.
+Check from_axis_angle_total_refuted :
+  exists ax ay az angle,
+    all_finite [ax; ay; az; angle] = true /\
+    has_nan (q4_list (q_from_axis_angle flocq_prims (ax, ay, az) angle)) = true /\
+    is_inf (v_dot flocq_prims (ax, ay, az) (ax, ay, az)) = true.
+Print Assumptions from_axis_angle_total_refuted.
+
 (* Non-vacuity: a canonical, finite, non-zero angle (pi/8) whose sine and cosine are non-trivial and
    whose negation flips exactly the sign bit of the sine. *)
 Example c19_nonvacuous :
@@ -172,3 +231,13 @@ Example c19_nonvacuous_fixed_prng :
   fx_from_f32 0x3fc00000 = 6442450944%Z /\ fx_from_f32 0x7f7fffff = I64_MAX /\
   prng_next_int 64 (prng_from_seed 42 99) (-10) 10 = Some (5%Z, (1513209474797682761, 5016521801728)).
 Proof. vm_compute. repeat split; intros; try discriminate; reflexivity. Qed.
+
+(* Non-vacuity of the range theorems: the bound is attained (sin(pi/2) = 1.0 exactly, cos(pi) = -1.0), and a
+   fraction strictly inside (0, 1) on the first (steepest) and on the last (flattest) segment gives values
+   strictly inside the segment. *)
+Example c19_nonvacuous_range :
+  s_sin flocq_prims 0x3fc90fdb = ONE /\ s_cos flocq_prims 0x40490fdb = 0xbf800000 /\
+  in01 0x3f000000 = true /\ (0 < 1024) /\ (1023 < 1024) /\
+  f_add (lut 0) (f_mul 0x3f000000 (f_sub (lut 1) (lut 0))) = 0x3a490fd5 /\
+  f_add (lut 1023) (f_mul 0x3f000000 (f_sub (lut 1024) (lut 1023))) = 0x3f7ffff6.
+Proof. vm_compute. repeat split; reflexivity. Qed.
